@@ -332,6 +332,12 @@ def run(ctx):
     # bundles with a signatures section: reader + bundle-signature verifier
     sb = [rand_bundle(rng, v, w) for v in ('b1', 'b2') for _ in range(12 * scale)]
     sb = [b for b in sb if b.split(' ')[3] != 'nil'][:6 * scale]
+    # deterministic members: one authority, vouched subsets that really point at it (authority index 0), with and without exchanges
+    for v in ('b1', 'b2'):
+        for nsub in (1, 2):
+            auth = f'{k0["cert"]}:{hexs(b"ocsp")}:{hexs(b"sct")}'
+            subs = '+'.join(f'0:{hexs(rbytes(rng, 70))}:{hexs(rbytes(rng, 40))}' for _ in range(nsub))
+            sb.append(bundle(v, b'https://example.com/', None, f'{auth}/{subs}', [exch(b'https://example.com/', 200, [(b'Content-Type', [b'text/plain'])], b'body')] if nsub == 1 else []))
     res = ctx.go([f'bundle.write {b}' for b in sb])
     for r in res:
         if not (r and r.startswith('ok ')): continue
